@@ -349,6 +349,7 @@ async fn run_case(case: &Value, idx: u64, scratch: &std::path::Path, rep: &Mutex
     let mut n = 0u64;
     let mut contract_broken = false;
     let mut model_diverged = false;
+    let mut cut_short = false; // the OS leg did not see the whole behaviour
     for (i, st) in steps.iter().enumerate() {
         let step = i + 1;
         n += 1;
@@ -394,10 +395,12 @@ async fn run_case(case: &Value, idx: u64, scratch: &std::path::Path, rep: &Mutex
                     case,
                     i,
                 );
+                cut_short = i + 1 < steps.len();
                 break;
             }
         }
         if contract_broken {
+            cut_short = i + 1 < steps.len();
             break;
         }
     }
@@ -425,7 +428,7 @@ async fn run_case(case: &Value, idx: u64, scratch: &std::path::Path, rep: &Mutex
             }
         }
     }
-    if !model_diverged {
+    if !model_diverged && !cut_short {
         if let Some(d) = snap_diff(&sb, &sm).or_else(|| (pb != pm).then(|| format!("pipe holds {pb:?}, model {pm:?}"))) {
             rep.lock().unwrap().problem("modelerr", json!({"site": "final", "what": "final_state"}), format!("final state: OS vs model: {d}"), case, last);
         }
@@ -486,6 +489,9 @@ async fn big_pipe(case: &Value, rep: &Mutex<Report>) -> Outcome {
     Outcome { steps: reads }
 }
 
+/// a case consists of a handful of system calls; this bound is only reached by a hang
+const WATCHDOG_S: u64 = 30;
+
 fn runtime(t: DriverType) -> Runtime {
     let mut pb = ProactorBuilder::new();
     pb.driver_type(t);
@@ -505,18 +511,20 @@ fn main() {
     // watchdog: a case that does not finish is a hang of the code under test
     let beat: Arc<Mutex<(Instant, Option<Value>)>> = Arc::new(Mutex::new((Instant::now(), None)));
     {
-        let (beat, cur) = (beat.clone(), cur.clone());
+        let (beat, cur, rep) = (beat.clone(), cur.clone(), rep.clone());
         std::thread::spawn(move || {
             loop {
                 std::thread::sleep(Duration::from_millis(250));
                 let g = beat.lock().unwrap();
                 if let (t, Some(case)) = (&g.0, &g.1) {
-                    if t.elapsed() > Duration::from_secs(60) {
+                    if t.elapsed() > Duration::from_secs(WATCHDOG_S) {
                         let site = cur.lock().unwrap().clone();
                         let (o, p) = site.split_once('@').unwrap_or((&site, ""));
                         let s = json!({"site": o, "path": p, "deviation_predicted": false, "off": "num", "what": "hang"});
-                        println!("{}", json!({"type": "hang", "sig": s, "desc": format!("operation {site} did not complete within 60 s"), "case": case, "step": 0}));
-                        println!("{}", json!({"type": "summary", "cases": 0, "steps": 0, "aborted": true, "problems": [{"type": "hang", "sig": s, "count": 1}]}));
+                        let mut r = std::mem::take(&mut *rep.lock().unwrap());
+                        r.problem("hang", s, format!("operation {site} did not complete within {WATCHDOG_S} s"), case, 0);
+                        r.set("aborted", json!(true));
+                        r.finish();
                         std::process::exit(0);
                     }
                 }
